@@ -149,7 +149,7 @@ func doCheck(id, tier string) int {
 	}
 	var aggs []*agg
 	for _, r := range spec.runs {
-		cfg := &poolCfg{eng: r.spec, sites: b.sites, seed: seed, tier: tier, workers: workersFor(tier), stallKill: 120 * time.Second, emitFirst: 2, extra: r.extra}
+		cfg := &poolCfg{eng: r.spec, sites: b.sites, seed: seed, tier: tier, workers: workersFor(tier), stallKill: 300 * time.Second, emitFirst: 2, extra: r.extra}
 		if r.spec.race {
 			cfg.bin = b.workerR
 		} else {
